@@ -54,6 +54,10 @@ def main(argv):
             jobs.append(("keep", d, m.group(0)))
     if want:
         jobs = [j for j in jobs if j[2] in want]
+    match = os.environ.get("GV_SELFTEST_MATCH")        # a regular expression on the patch path: only those changes
+    if match:
+        jobs = [j for j in jobs if re.search(match, str(j[1]))]
+        want = want or {"*"}
     results = []
     # the checks write evidence/<id>.json: run one property at a time per worker to avoid mixing files
     with ThreadPoolExecutor(4) as ex:
